@@ -128,11 +128,13 @@ def run(tier, seed):
         meta[i] = f"chain={'>'.join(chain)} exit={ex} probe=a{lvl}@{pos} fun={in_fun}"
     d = scratch_dir("c06")
     try:
-        path = os.path.join(d, "p.ndjson")
-        write_ndjson(path, progs)
-        mres = tlc("MC_Machine", env={"PROGS": path}, workers=8, timeout=1500)
-        tlc_ok(mres, "MC_Machine on the exit matrix (RefinesRef, TopBalanced)")
-        ck.add_tlc(mres)
+        # the machine's states carry the evaluation stack: a few thousand programs per TLC run keep the heap small
+        for lo in range(0, len(progs), 1500):
+            path = os.path.join(d, f"p{lo}.ndjson")
+            write_ndjson(path, progs[lo:lo + 1500])
+            mres = tlc("MC_Machine", env={"PROGS": path}, workers=8, timeout=2400, heap="12g")
+            tlc_ok(mres, "MC_Machine on the exit matrix (RefinesRef, TopBalanced)")
+            ck.add_tlc(mres)
     finally:
         shutil.rmtree(d, ignore_errors=True)
     tres, exp = refrun.ref_expect(progs)
